@@ -748,7 +748,13 @@ def _deepspec(impl, o):
     }
     for name, f in methods.items():
         status, text = M.in_child(lambda: f(M.chain_spec(depth, o.get('chain', 'list'))), timeout=300)
-        if status.startswith('crash') or status == 'timeout':
+        if status == 'timeout':
+            # repr / pickle of a 60 000 .. 200 000 deep treespec is quadratic and can exceed the limit on a loaded machine or
+            # under the sanitizer; running out of time is not a memory-safety observation (a stack overflow or an invalid
+            # access ends the child with a signal, which is what this cell looks for)
+            fails.append({'key': f'inconclusive-deepspec-timeout-{name}',
+                          'what': f'treespec of depth {depth} ({o.get("chain", "list")} chain): {name} did not finish in 300 s'})
+        elif status.startswith('crash'):
             fails.append({'key': f'deepspec-crash-{name}-{o.get("chain", "list")}',
                           'what': f'treespec of depth {depth} ({o.get("chain", "list")} chain built with compose): {name}: {status}',
                           'stderr': text[-600:]})
